@@ -68,22 +68,129 @@ func shapeFact(f *facts, name string, p *pkg, file, recv, fn string) {
 	shapeFactX(f, name, p, file, recv, fn, false)
 }
 
-// armName: the part a select arm of the processing loop belongs to
-func armName(comm string) string {
+// localNames: the local variables of a function (receiver, parameters, named results, everything it declares) in
+// order of declaration. The skeleton facts name them by position (§0, §1, ...) so that renaming a local variable -
+// the most common harmless edit - does not change a skeleton, while swapping two operands still does.
+func localNames(fd *ast.FuncDecl) map[string]string {
+	type decl struct {
+		name string
+		pos  token.Pos
+	}
+	var ds []decl
+	seen := map[string]bool{}
+	ast.Inspect(fd, func(x ast.Node) bool {
+		id, ok := x.(*ast.Ident)
+		if !ok || id.Obj == nil || id.Obj.Kind != ast.Var || id.Name == "_" {
+			return true
+		}
+		if id.Obj.Pos() < fd.Pos() || id.Obj.Pos() > fd.End() {
+			return true
+		}
+		if !seen[id.Name] {
+			seen[id.Name] = true
+			ds = append(ds, decl{id.Name, id.Obj.Pos()})
+		}
+		return true
+	})
+	sort.SliceStable(ds, func(i, j int) bool { return ds[i].pos < ds[j].pos })
+	out := map[string]string{}
+	for i, d := range ds {
+		out[d.name] = fmt.Sprintf("§%d", i)
+	}
+	return out
+}
+
+// normLocals replaces identifiers that are local names (and are not selected fields: not preceded by '.')
+func normLocals(s string, names map[string]string) string {
+	var sb strings.Builder
+	i := 0
+	isId := func(c byte) bool {
+		return c == '_' || (c >= '0' && c <= '9') || (c >= 'a' && c <= 'z') || (c >= 'A' && c <= 'Z')
+	}
+	for i < len(s) {
+		c := s[i]
+		if isId(c) && !(c >= '0' && c <= '9') {
+			j := i
+			for j < len(s) && isId(s[j]) {
+				j++
+			}
+			word := s[i:j]
+			prevDot := false
+			for k := i - 1; k >= 0; k-- {
+				if s[k] == ' ' {
+					continue
+				}
+				prevDot = s[k] == '.'
+				break
+			}
+			if r, ok := names[word]; ok && !prevDot {
+				sb.WriteString(r)
+			} else {
+				sb.WriteString(word)
+			}
+			i = j
+			continue
+		}
+		sb.WriteByte(c)
+		i++
+	}
+	return sb.String()
+}
+
+func normAll(ss []string, names map[string]string) []string {
+	out := make([]string, len(ss))
+	for i, x := range ss {
+		out[i] = normLocals(x, names)
+	}
+	return out
+}
+
+// tickerRoles: local variable -> role, for `x := time.NewTicker(r.<interval field>)`
+func tickerRoles(p *pkg, fd *ast.FuncDecl) map[string]string {
+	roles := map[string]string{}
+	ast.Inspect(fd, func(x ast.Node) bool {
+		as, ok := x.(*ast.AssignStmt)
+		if !ok || len(as.Lhs) != 1 || len(as.Rhs) != 1 {
+			return true
+		}
+		call, ok := as.Rhs[0].(*ast.CallExpr)
+		if !ok || p.str(call.Fun) != "time.NewTicker" || len(call.Args) != 1 {
+			return true
+		}
+		arg := p.str(call.Args[0])
+		role := ""
+		switch {
+		case strings.HasSuffix(arg, ".auditInterval"):
+			role = "audit"
+		case strings.HasSuffix(arg, ".capacityInterval"):
+			role = "capacity"
+		case strings.HasSuffix(arg, ".flushInterval"):
+			role = "flushtick"
+		}
+		if role != "" {
+			roles[p.str(as.Lhs[0])] = role
+		}
+		return true
+	})
+	return roles
+}
+
+// armName: the part a select arm of the processing loop belongs to (by what the arm receives from, not by the
+// names of local variables)
+func armName(comm string, roles map[string]string) string {
+	for v, role := range roles {
+		if strings.Contains(comm, "<-"+v+".C") {
+			return role
+		}
+	}
 	switch {
 	case comm == "":
 		return "default"
-	case strings.Contains(comm, "ctx.Done") || strings.Contains(comm, ".stop"):
+	case strings.Contains(comm, ".Done()") || strings.HasSuffix(comm, ".stop"):
 		return "stop"
-	case strings.Contains(comm, ".pause"):
+	case strings.HasSuffix(comm, ".pause"):
 		return "pause"
-	case strings.Contains(comm, "auditTimer"):
-		return "audit"
-	case strings.Contains(comm, "capacityTimer"):
-		return "capacity"
-	case strings.Contains(comm, "flushTimer"):
-		return "flushtick"
-	case strings.Contains(comm, ".flush"):
+	case strings.HasSuffix(comm, ".flush"):
 		return "flush"
 	}
 	return "other"
@@ -103,9 +210,11 @@ func shapeParts(f *facts, name string, p *pkg, file, recv, fn string) {
 	}
 	parts := map[string][]string{}
 	var walk func(part string, n ast.Node)
+	roles := tickerRoles(p, fd)
+	nlit := 0
 	isLoopSelect := func(s *ast.SelectStmt) bool {
 		for _, c := range s.Body.List {
-			if cc, ok := c.(*ast.CommClause); ok && cc.Comm != nil && strings.Contains(p.str(cc.Comm), "auditTimer") {
+			if cc, ok := c.(*ast.CommClause); ok && cc.Comm != nil && armName(oneLine(p.str(cc.Comm)), roles) == "audit" {
 				return true
 			}
 		}
@@ -126,7 +235,7 @@ func shapeParts(f *facts, name string, p *pkg, file, recv, fn string) {
 							comm = oneLine(p.str(cc.Comm))
 						}
 						parts[part] = append(parts[part], "select "+comm)
-						arm := "arm_" + armName(comm)
+						arm := "arm_" + armName(comm, roles)
 						if _, seen := parts[arm]; !seen {
 							parts[arm] = []string{}
 						}
@@ -139,7 +248,8 @@ func shapeParts(f *facts, name string, p *pkg, file, recv, fn string) {
 			case *ast.AssignStmt:
 				if len(n.Lhs) == 1 && len(n.Rhs) == 1 {
 					if fl, ok := n.Rhs[0].(*ast.FuncLit); ok {
-						lit := "lit_" + p.str(n.Lhs[0])
+						nlit++
+						lit := fmt.Sprintf("closure%d", nlit)
 						parts[part] = append(parts[part], p.str(n.Lhs[0])+" := <func literal>")
 						parts[lit] = append(parts[lit], shapeOf(p, fl.Body, false)...)
 						return false
@@ -156,8 +266,9 @@ func shapeParts(f *facts, name string, p *pkg, file, recv, fn string) {
 		keys = append(keys, k)
 	}
 	sort.Strings(keys)
+	names := localNames(fd)
 	for _, k := range keys {
-		f.strList(name+"_"+k, parts[k])
+		f.strList(name+"_"+normLocals(k, names), normAll(parts[k], names))
 	}
 }
 
@@ -298,7 +409,7 @@ func shapeFactX(f *facts, name string, p *pkg, file, recv, fn string, full bool)
 		}
 		return true
 	})
-	f.strList(name, out)
+	f.strList(name, normAll(out, localNames(fd)))
 }
 
 func labelOf(n *ast.BranchStmt) string {
@@ -341,7 +452,7 @@ func defaultsFact(f *facts, gen string, p *pkg, recv string) {
 			}
 			var n int64
 			fmt.Sscan(lit.Value, &n)
-			out = append(out, fmt.Sprintf("%s|%s|%d", p.str(is.Cond), p.str(as.Lhs[0]), n*units[sel.Sel.Name]))
+			out = append(out, fmt.Sprintf("%s|%s|%d", normLocals(p.str(is.Cond), localNames(fd)), normLocals(p.str(as.Lhs[0]), localNames(fd)), n*units[sel.Sel.Name]))
 		}
 	}
 	f.strList(gen+"_defaults", out)
@@ -444,7 +555,7 @@ func enqueueFacts(f *facts, gen string, p *pkg, file, recv string) {
 					name := p.str(rs.Results[0])
 					name = strings.TrimSuffix(name, "{}")
 					order = append(order, name)
-					conds = append(conds, p.str(s.Cond))
+					conds = append(conds, normLocals(p.str(s.Cond), localNames(fd)))
 					continue
 				}
 			}
